@@ -61,7 +61,8 @@ def run_shards(prop, specs, jobs, workdir, repo):
         still = []
         for (i, spec, p, t0, op, log) in running:
             rc = p.poll()
-            limit = spec.get("shard_timeout", 1800)
+            # wall-clock backstop only (verdicts come from logical budgets); generous, because a loaded machine slows every shard
+            limit = max(spec.get("shard_timeout", 0), 3600 if spec.get("tier") == "quick" else 14400)
             if rc is None:
                 if time.time() - t0 > limit:
                     p.kill()
